@@ -284,8 +284,9 @@ pub fn gen_requests(rng: &mut Rng, n: u64, out: &mut Out) -> Vec<String> {
                     if stopped { push!("setBreakpoints", "valid", rng.range(1, 3)); push!("configurationDone", "valid", 0); }
                 }
                 let base = rng.range(1, 5);
-                for _ in 0..rng.range(2, 5) {
-                    let target = *rng.pick(CANCELLABLE);
+                let mut rot = rng.below(4) as usize; // the cancellable commands take turns
+                for _ in 0..rng.range(3, 6) {
+                    let target = CANCELLABLE[rot % 4]; rot += 1;
                     let at = base + cmds.len() as u64; // seq of the next request
                     match rng.below(8) {
                         0..=2 => { // cancel ahead by request id
@@ -334,8 +335,10 @@ pub fn gen_requests(rng: &mut Rng, n: u64, out: &mut Out) -> Vec<String> {
                 if rng.chance(1, 3) { push!("threads", "valid", 0); }
                 let step = *rng.pick(&["next", "next", "stepIn", "stepOut"]);
                 push!(step, "valid", 0);
-                for _ in 0..rng.below(3) { let c = *rng.pick(&["next", "threads", "stackTrace", "pause", "stepIn"]); push!(c, "valid", 0); }
+                if step != "next" { for _ in 0..rng.below(3) { let c = *rng.pick(&["next", "threads", "stackTrace", "pause", "stepIn"]); push!(c, "valid", 0); } }
                 push!("threads", "valid", 0);
+                // over the `join`: the worker is gone, the next `threads` announces its exit from the cache diff
+                if step == "next" && rng.chance(3, 4) { push!("next", "valid", 0); push!("threads", "valid", 0); }
                 for _ in 0..rng.range(1, 5) { let c = *rng.pick(&["next", "threads", "continue", "continue", "stepOut", "terminateThreads", "stackTrace"]); push!(c, "valid", if c == "terminateThreads" { 3 } else { 0 }); }
                 if rng.chance(1, 2) { push!("threads", "valid", 0); }
             }
@@ -1219,6 +1222,8 @@ pub fn exec(req: &[String], out: &mut Out, dir: &Path) {
                     if a.tokens.iter().any(|t| t.starts_with("E.stopped")) { out.count("answer.stopped", 1); }
                     if a.tokens.iter().any(|t| t == "E.exited") { out.count("answer.exited", 1); }
                     if a.tokens.iter().any(|t| t.starts_with("E.thread.started")) { out.count("answer.thread_started", 1); }
+                    if a.tokens.iter().any(|t| t.starts_with("E.thread.exited")) && !a.tokens.iter().any(|t| t == "E.terminated") { out.count("answer.thread_exited_by_cache_diff", 1); }
+                    if rq.cmd == "threads" && a.tokens.iter().any(|t| t.starts_with("E.thread.started")) { out.count("answer.thread_started_by_threads_request", 1); }
                     if CANCELLABLE.contains(&rq.cmd.as_str()) && a.msgs.iter().any(|m| m["type"] == "response" && m["message"] == "cancelled") { out.count(&format!("answer.cancelled.{}", rq.cmd), 1); }
                     out.pair(format!("{line} {}", hints(rq, a, &ranks)), ans);
                 }
